@@ -297,4 +297,180 @@ theorem sim_decode_contiguous {x : GPS grow} {st : Store} (h : Sim x st) (b : Li
     (decodeStore_rel_cc ⟨s, s', rfl, rfl, hi, hi', hc⟩ (nb b)
       (fun v r0 start r1 stride r2 h1 h2 h3 => (hn v r0 start r1 stride r2 h1 h2 h3).2))
 
+/-! ### 3. the regenerated sketch decoder over the two store instances -/
+
+section sketchDecode
+
+open DDS.Gen.Sketch
+
+variable {M : Type} [MapI M] [Inhabited M]
+
+/-- the side conditions `OK` hold at every store block the decoder loop meets when run over the regenerated stores
+    (by recursion on the fuel, following that run; nothing is asked where the loop stops) -/
+def GoodRun (OK : GPS grow → List (BitVec 8) → SubFlag → Prop)
+    (fb : List (BitVec 8) → Flag → Res (List (BitVec 8) × GoErr)) :
+    Nat → List (BitVec 8) → DDSketch M (GPS grow) → Prop
+  | 0, _, _ => True
+  | fuel + 1, b, s =>
+    ∀ b1 flag, DecodeFlag fuel b = .ok (b1, flag, GoErr.nil) →
+      if (Flag.Type flag == FlagTypePositiveStore) then
+        OK s.positiveValueStore b1 (Flag.SubFlag flag) ∧
+        ∀ t b2, (StoreI.DecodeAndMergeWith s.positiveValueStore b1 (Flag.SubFlag flag) :
+            GPS grow × List (BitVec 8) × GoErr) = (t, b2, GoErr.nil) →
+          GoodRun OK fb fuel b2 { s with positiveValueStore := t }
+      else if (Flag.Type flag == FlagTypeNegativeStore) then
+        OK s.negativeValueStore b1 (Flag.SubFlag flag) ∧
+        ∀ t b2, (StoreI.DecodeAndMergeWith s.negativeValueStore b1 (Flag.SubFlag flag) :
+            GPS grow × List (BitVec 8) × GoErr) = (t, b2, GoErr.nil) →
+          GoodRun OK fb fuel b2 { s with negativeValueStore := t }
+      else if (Flag.Type flag == FlagTypeIndexMapping) then
+        ∀ b2 m, MapI.Decode (M := M) b1 flag = (b2, m, GoErr.nil) →
+          GoodRun OK fb fuel b2 { s with IndexMapping := m }
+      else if (flag == FlagZeroCountVarFloat) then
+        ∀ b2 z, DecodeVarfloat64 fuel b1 = .ok (b2, z, GoErr.nil) →
+          GoodRun OK fb fuel b2 { s with zeroCount := F64.add s.zeroCount z }
+      else
+        ∀ b2, fb b1 flag = .ok (b2, GoErr.nil) → GoodRun OK fb fuel b2 s
+
+/-- two runs of the decoder loop agree -/
+def LoopRel (l : Loop (List (BitVec 8) × DDSketch M (GPS grow)) (DDSketch M (GPS grow) × GoErr))
+    (l' : Loop (List (BitVec 8) × DDSketch M Store) (DDSketch M Store × GoErr)) : Prop :=
+  match l, l' with
+  | .done p, .done p' => p.1 = p'.1 ∧ SkSim p.2 p'.2
+  | .ret p, .ret p' => p.2 = p'.2 ∧ p.2 ≠ GoErr.nil
+  | .panic, .panic => True
+  | .nofuel, .nofuel => True
+  | _, _ => False
+
+theorem ne_nil_of_bne {e : GoErr} (h : (e != GoErr.nil) = true) : e ≠ GoErr.nil := by simpa using h
+theorem eq_nil_of_not_bne {e : GoErr} (h : ¬ (e != GoErr.nil) = true) : e = GoErr.nil := by simpa using h
+
+/-- **the decoder loop, parametricity**: on `SkSim`-related sketches, when every store block met satisfies the side
+    conditions `OK` (which give `StepRel`), the loop over the regenerated paginated stores and the loop over the
+    model stores end alike -/
+theorem loop1_param (OK : GPS grow → List (BitVec 8) → SubFlag → Prop)
+    (hOK : ∀ x st b sub, Sim x st → OK x b sub → StepRel x st b sub)
+    (fb : List (BitVec 8) → Flag → Res (List (BitVec 8) × GoErr)) :
+    ∀ (fuel : Nat) (b : List (BitVec 8)) (a : DDSketch M (GPS grow)) (a' : DDSketch M Store),
+      SkSim a a' → GoodRun OK fb fuel b a →
+      LoopRel (DDSketch.decodeAndMergeWith.loop1 fb fuel b a) (DDSketch.decodeAndMergeWith.loop1 fb fuel b a') := by
+  intro fuel
+  induction fuel with
+  | zero => intro b a a' _ _; exact trivial
+  | succ fuel ih =>
+    intro b a a' h hg
+    unfold DDSketch.decodeAndMergeWith.loop1
+    by_cases h0 : decide ((0 : Int) < GoSem.len b) = true
+    · simp only [h0, if_true]
+      cases hF : DecodeFlag fuel b with
+      | panic => exact trivial
+      | nofuel => exact trivial
+      | ok p =>
+        obtain ⟨b1, flag, err⟩ := p
+        simp only [Res.bindL_ok]
+        by_cases he : (err != GoErr.nil) = true
+        · simp only [he, if_true]
+          exact ⟨rfl, ne_nil_of_bne he⟩
+        · simp only [he, Bool.false_eq_true, if_false]
+          have hen := eq_nil_of_not_bne he
+          subst hen
+          have hg' := hg b1 flag hF
+          by_cases hp : (Flag.Type flag == FlagTypePositiveStore) = true
+          · simp only [hp, if_true] at hg' ⊢
+            obtain ⟨hok, hnext⟩ := hg'
+            obtain ⟨e1, e2⟩ := hOK _ _ b1 _ h.pos hok
+            generalize (StoreI.DecodeAndMergeWith a.positiveValueStore b1 (Flag.SubFlag flag) :
+              GPS grow × List (BitVec 8) × GoErr) = ra at e1 e2 hnext
+            generalize (StoreI.DecodeAndMergeWith a'.positiveValueStore b1 (Flag.SubFlag flag) :
+              Store × List (BitVec 8) × GoErr) = rb at e1 e2
+            obtain ⟨t, b2, e⟩ := ra
+            obtain ⟨t', b2', e'⟩ := rb
+            simp only at e1 e2
+            subst e1
+            by_cases he2 : (e != GoErr.nil) = true
+            · simp only [he2, if_true]
+              exact ⟨rfl, ne_nil_of_bne he2⟩
+            · simp only [he2, Bool.false_eq_true, if_false]
+              have hen := eq_nil_of_not_bne he2
+              subst hen
+              obtain ⟨e3, e4⟩ := e2 rfl
+              subst e3
+              exact ih b2 _ _ ⟨h.map, e4, h.neg, h.zero⟩ (hnext t b2 rfl)
+          · simp only [hp, Bool.false_eq_true, if_false] at hg' ⊢
+            by_cases hq : (Flag.Type flag == FlagTypeNegativeStore) = true
+            · simp only [hq, if_true] at hg' ⊢
+              obtain ⟨hok, hnext⟩ := hg'
+              obtain ⟨e1, e2⟩ := hOK _ _ b1 _ h.neg hok
+              generalize (StoreI.DecodeAndMergeWith a.negativeValueStore b1 (Flag.SubFlag flag) :
+                GPS grow × List (BitVec 8) × GoErr) = ra at e1 e2 hnext
+              generalize (StoreI.DecodeAndMergeWith a'.negativeValueStore b1 (Flag.SubFlag flag) :
+                Store × List (BitVec 8) × GoErr) = rb at e1 e2
+              obtain ⟨t, b2, e⟩ := ra
+              obtain ⟨t', b2', e'⟩ := rb
+              simp only at e1 e2
+              subst e1
+              by_cases he2 : (e != GoErr.nil) = true
+              · simp only [he2, if_true]
+                exact ⟨rfl, ne_nil_of_bne he2⟩
+              · simp only [he2, Bool.false_eq_true, if_false]
+                have hen := eq_nil_of_not_bne he2
+                subst hen
+                obtain ⟨e3, e4⟩ := e2 rfl
+                subst e3
+                exact ih b2 _ _ ⟨h.map, h.pos, e4, h.zero⟩ (hnext t b2 rfl)
+            · simp only [hq, Bool.false_eq_true, if_false] at hg' ⊢
+              by_cases hm : (Flag.Type flag == FlagTypeIndexMapping) = true
+              · simp only [hm, if_true] at hg' ⊢
+                generalize (MapI.Decode (M := M) b1 flag) = rm at hg'
+                obtain ⟨b2, m, e⟩ := rm
+                simp only
+                by_cases he2 : (e != GoErr.nil) = true
+                · simp only [he2, if_true]
+                  exact ⟨rfl, ne_nil_of_bne he2⟩
+                · simp only [he2, Bool.false_eq_true, if_false]
+                  have hen := eq_nil_of_not_bne he2
+                  subst hen
+                  rw [h.map]
+                  by_cases hmm : ((!(MapI.isNil a'.IndexMapping)) && (!(MapI.Equals a'.IndexMapping m))) = true
+                  · simp only [hmm, if_true]
+                    exact ⟨rfl, show GoErr.named "index mapping mismatch" ≠ GoErr.nil by decide⟩
+                  · simp only [hmm, Bool.false_eq_true, if_false]
+                    exact ih b2 _ _ ⟨rfl, h.pos, h.neg, h.zero⟩ (hg' b2 m rfl)
+              · simp only [hm, Bool.false_eq_true, if_false] at hg' ⊢
+                by_cases hz : (flag == FlagZeroCountVarFloat) = true
+                · simp only [hz, if_true] at hg' ⊢
+                  cases hV : DecodeVarfloat64 fuel b1 with
+                  | panic => exact trivial
+                  | nofuel => exact trivial
+                  | ok p =>
+                    obtain ⟨b2, z, e⟩ := p
+                    simp only [Res.bindL_ok]
+                    by_cases he2 : (e != GoErr.nil) = true
+                    · simp only [he2, if_true]
+                      exact ⟨rfl, ne_nil_of_bne he2⟩
+                    · simp only [he2, Bool.false_eq_true, if_false]
+                      have hen := eq_nil_of_not_bne he2
+                      subst hen
+                      refine ih b2 _ _ ⟨h.map, h.pos, h.neg, ?_⟩ (hg' b2 z hV)
+                      show F64.add a.zeroCount z = F64.add a'.zeroCount z
+                      rw [h.zero]
+                · simp only [hz, Bool.false_eq_true, if_false] at hg' ⊢
+                  cases hB : fb b1 flag with
+                  | panic => exact trivial
+                  | nofuel => exact trivial
+                  | ok p =>
+                    obtain ⟨b2, e⟩ := p
+                    simp only [Res.bindL_ok]
+                    by_cases he2 : (e != GoErr.nil) = true
+                    · simp only [he2, if_true]
+                      exact ⟨rfl, ne_nil_of_bne he2⟩
+                    · simp only [he2, Bool.false_eq_true, if_false]
+                      have hen := eq_nil_of_not_bne he2
+                      subst hen
+                      exact ih b2 _ _ h (hg' b2 hB)
+    · simp only [h0, Bool.false_eq_true, if_false]
+      exact ⟨rfl, h⟩
+
+end sketchDecode
+
 end DDS.GenPagSketch
